@@ -102,6 +102,7 @@ pub struct Unit {
     pub methodval: Vec<(String, String)>,
     pub inlinecall: Vec<String>,
     pub optionmap: bool,
+    pub heapupgrade: Option<String>, // name of the heap parameter: `if let Some(x) = W.upgrade() { B }` runs B on the heap's object
     pub constfn: Vec<(String, String)>,
     pub argcall: Vec<(String, String, String)>,
     pub strlits: bool,
@@ -349,6 +350,7 @@ pub fn parse_unit(text: &str) -> Unit {
             "pathrename" => u.pathrename.push((words[0].clone(), words[1].clone())),
             "strlits" => u.strlits = true,
             "optionmap" => u.optionmap = true,
+            "heapupgrade" => u.heapupgrade = Some(words[0].clone()),
             "inlinecall" => u.inlinecall.extend(words),
             "constfn" => u.constfn.push((words[0].clone(), words[1].clone())),
             "argcall" => u.argcall.push((words[0].clone(), words[1].clone(), words[2].clone())),
